@@ -425,16 +425,45 @@ func runC13(c *Ctx) {
 		}
 		ok := false
 		what := "does not call Recalculate"
+		ncalls := 0
 		for _, b := range g.Blocks {
 			for _, in := range b.Instrs {
 				if call, isCall := in.(*ssa.Call); isCall && p.Callee(call) == fn {
+					ncalls++
 					if k, isK := constDuration(call.Call.Args[1]); isK && k >= 0 {
 						ok = true
 						what = fmt.Sprintf("Recalculate(%d)", k)
 					} else {
+						ok = false
 						what = "passes a non-constant or negative minimum"
 					}
+					// on its own receiver, and the result is handed back unchanged
+					if rs := p.Sym(call.Call.Args[0]); rs.Op != "param" {
+						ok = false
+						what = "recalculates " + rs.String() + " instead of its receiver: an intermediate conversion rounds twice and the result no longer matches the original speed within one rounding step"
+					}
+					for _, b2 := range g.Blocks {
+						if ret, isRet := b2.Instrs[len(b2.Instrs)-1].(*ssa.Return); isRet && b2.Comment != "recover" {
+							for i, rv := range ret.Results {
+								ex, isEx := rv.(*ssa.Extract)
+								if !isEx || ex.Tuple != ssa.Value(call) || ex.Index != i {
+									ok = false
+									what = "does not return the result of Recalculate on its receiver unchanged"
+								}
+							}
+						}
+					}
 				}
+			}
+		}
+		if ncalls > 1 {
+			ok = false
+			what = "calls Recalculate more than once (conversions are not composable: each one rounds)"
+		}
+		for cal := range p.Reach(g) {
+			if cal != g && cal != fn && !p.Reach(fn)[cal] {
+				ok = false
+				what = "goes through " + cal.Name() + " before/besides Recalculate on its receiver"
 			}
 		}
 		r.Check(ok, "V6", p.FnKey(g), p.Pos(g.Pos()), what, name+" "+what)
